@@ -144,8 +144,8 @@ RunAdd(cc, hasDet, k, p, G) ==
     ELSE LET r1 == StParticles(cc, k, p, Preset(G))
              r2 == IF r1.err THEN r1 ELSE StTriggers(cc, hasDet, k, p, r1.G)
              r3 == IF r2.err THEN r2 ELSE StRays(cc, hasDet, k, p, r2.G)
-             r4 == IF r3.err THEN r3 ELSE StNoise(cc, hasDet, k, p, r3.G)
-             r5 == IF r4.err THEN r4 ELSE StWaveforms(cc, hasDet, k, p, r4.G)
+             r4 == IF r3.err THEN r3 ELSE StWaveforms(cc, hasDet, k, p, r3.G)    \* waveforms before noise bases (since the repair of D41)
+             r5 == IF r4.err THEN r4 ELSE StNoise(cc, hasDet, k, p, r4.G)
          IN IF r5.err
             THEN (IF AsIsNoRollback THEN r5
                   ELSE ERR([r5.G EXCEPT !.idx = SubSeq(@, 1, Min(Len(@), r5.G.ev))]))    \* index row removed
